@@ -72,6 +72,18 @@ CHECKS = {
         note=TB + " x/text norm is the NFC oracle; WinAnsi/MacRoman tables cross-checked against two on-disk sources, PDFDoc/Standard transcribed from Annex D, Symbol/ZapfDingbats only a handful of entries.",
         technique="TLA+ decoding reference + rendered CMap programs enumerated by TLC, replay through the font decoders, trace validation",
     ),
+    "C09": dict(
+        text="LayoutConserve.tla states conservation as a contract: heuristics may group as they like, the guards StageOK (groups pairwise "
+             "disjoint, only fragments of the page, covering everything except exact duplicates and white-space-only fragments) and "
+             "RenderOK (every text occurs as often as fragments carry it, duplicates optional) are the property; TLC checks the "
+             "composition lemma and enumerates 432 abstract pages (columns x rows x fill x 16 features). Each page is laid out on "
+             "exact coordinates and pushed through the line/column/paragraph/block/reading-order detectors, the analyzer and eight "
+             "public API modes on a rendered PDF; the guards are evaluated on the real groups/texts and the recorded Stage/Render "
+             "events are validated by LayoutConserveTrace.tla.",
+        design_ref="4.9",
+        note=TB + " Geometry near the heuristics' thresholds is not probed; fragment identity in stage results is (text, x, y).",
+        technique="TLA+ partition/bag contract with the property as action guard, TLC page enumeration, guard evaluation on real results, trace validation",
+    ),
     "C10": dict(
         text="PageSelect.tla gives builder-call sequences (Pages / PageRange incl. duplicates, reversed and out-of-range arguments) their "
              "set meaning and TLC checks commutation, idempotence and ascending order while enumerating them; Lifecycle.tla models "
